@@ -777,3 +777,18 @@ VARIANTS["C06"] += [
       "                    exclusion_candidates=exclusion_candidates,\n                    num_requested_candidates=num_requested_candidates,\n                    greedy_batch_selection=True,",
       "                    exclusion_candidates=self._get_exclusion_candidates(skip_observed=self._allow_duplicates),\n                    num_requested_candidates=num_requested_candidates,\n                    greedy_batch_selection=True,"),
 ]
+
+VARIANTS["C10"] += [
+    B("un-pickled backend: checkpointing flag not handed to the base constructor", TAB,
+      "            support_checkpointing=state[\"support_checkpointing\"],\n            **state[\"simulatorbackend_kwargs\"],",
+      "            **state[\"simulatorbackend_kwargs\"],"),
+    B("un-pickled backend: seed restored under another attribute name", TAB,
+      "            seed=state[\"seed\"],\n            support_checkpointing=state[\"support_checkpointing\"],",
+      "            support_checkpointing=state[\"support_checkpointing\"],"),
+    B("completion of a finished job delayed by the stop delay", _SIM,
+      "            time_final_result + self.simulator_config.delay_complete_after_final_report",
+      "            time_final_result + self.simulator_config.delay_complete_after_stop"),
+    E("un-pickled backend: state entries bound to locals first", TAB,
+      "        super().__init__(\n            elapsed_time_attr=state[\"elapsed_time_attr\"],",
+      "        et_attr = state[\"elapsed_time_attr\"]\n        super().__init__(\n            elapsed_time_attr=et_attr,"),
+]
